@@ -437,6 +437,32 @@ REGISTRY = {
                 nontrivial=has_tx, assumptions=STREAM_ASSUME, trace_heap="6g",
                 rule="scenario = history with event sizes around the driver's 4096-byte buffer x pacing (later packets before/after the handler "
                      "returns) x handler overwriting every delivered byte slice with a per-transaction pattern; every delivery re-read at the end"),
+    "C09": dict(parts=[dict(mode="c09", trace_module="Trace_Codec", trace_cfg="Trace_Codec.cfg", props=["C09"], block_ev=["case"]),
+                       dict(mode="c09s", trace_module="Trace_Stream", trace_cfg="Trace_Stream.cfg", props=["C09"])],
+                mc=[MC_CELLSPEC], assumptions=CODEC_ASSUME + ["rows-event bodies are built by the harness's independent writer from the abstract rows"],
+                rule="case = rows event (write/update/delete x v1/v2 x 4/6-byte table id x extra-data length x checksum) over 1..3 columns from one "
+                     "representative of each length class, and wide tables over all types and metadata (up to 300 columns, column counts around "
+                     "251, up to 50 rows) with random presence and NULL bitmaps, 0..R rows; Rows() result and a CellBytes walk are validated "
+                     "against the abstract rows and the spec's CellLen; plus all kinds end to end"),
+    "C15": dict(parts=[dict(mode="c15a", trace_module="Trace_Codec", trace_cfg="Trace_Codec.cfg", props=["C15"], block_ev=["case"]),
+                       dict(mode="c15b", trace_module="Trace_Stream", trace_cfg="Trace_Stream.cfg", props=["C15"])],
+                mc=[MC_STREAMER], assumptions=STREAM_ASSUME,
+                rule="case = table-map event (1..600 columns over all types/metadata, names to 255 bytes, every nullability bit, 4/6-byte ids, random "
+                     "optional-metadata tails); scenario = transactions whose statements announce tables A, B, C (C re-uses A's id), A under a "
+                     "new id, and A's id/name with other column types, inside and across transactions, optionally with a mapper table of another "
+                     "column count"),
+    "C16": dict(mode="c16", trace_module="Trace_Codec", trace_cfg="Trace_Codec.cfg", props=["C16"], block_ev=["case"],
+                mc=[MC_CELLSPEC], assumptions=["event bytes come from the harness's independent writer (DESIGN.md Appendix A.2-A.4)"],
+                rule="case = one event decoded by the real accessors: FORMAT_DESCRIPTION (server versions 0..50 bytes, 27..255 header-size entries, "
+                     "checksum algorithm off/CRC32/undefined), ROTATE, QUERY with every subset (in MySQL's order) of status variables 0..20 with "
+                     "random payloads, database names 0..255 bytes, SQL 0..64KB, XID, INTVAR, RAND; header fields at their boundaries; every "
+                     "event with and without the trailing CRC32"),
+    "C17": dict(parts=[dict(mode="c17a", trace_module="Trace_Codec", trace_cfg="Trace_Codec.cfg", props=["C17"], block_ev=["case"]),
+                       dict(mode="c17s", trace_module="Trace_Stream", trace_cfg="Trace_Stream.cfg", props=["C17"])],
+                mc=[MC_STREAMER, MC_SESSION], assumptions=STREAM_ASSUME,
+                rule="case = byte string of length 0..64 with the length field in {len-1,len,len+1,0,18,19,2^32-1,len+2^8k} x type byte, every "
+                     "well-formed event truncated at / extended from every length, random strings; scenario = such a packet injected at every "
+                     "index of a history (both pacings) followed by a clean attempt"),
     "C10": dict(parts=[dict(mode="c10", trace_module="Trace_Codec", trace_cfg="Trace_Codec.cfg", props=["C10"], block_ev=["case"]),
                        dict(mode="c10s", trace_module="Trace_Stream", trace_cfg="Trace_Stream.cfg", props=["C10"])],
                 mc=[MC_CELLSPEC], assumptions=CODEC_ASSUME,
